@@ -203,6 +203,8 @@ pub assume_specification [ f64::is_finite ] (f: f64) -> (r: bool)
     ensures r == f64_is_finite(f);
 pub assume_specification [ i64::unsigned_abs ] (i: i64) -> (r: u64)
     ensures r as int == (if i >= 0 { i as int } else { -(i as int) });
+pub assume_specification [ i64::wrapping_abs ] (i: i64) -> (r: i64)
+    ensures r == (if i == i64::MIN { i64::MIN } else if i >= 0 { i } else { (-(i as int)) as i64 });
 pub assume_specification<T: PartialEq> [ <[T]>::contains ] (s: &[T], x: &T) -> (r: bool)
     ensures <T as vstd::std_specs::cmp::PartialEqSpec>::obeys_eq_spec() ==> (r <==> exists |i: int| 0 <= i < s@.len() && vstd::std_specs::cmp::PartialEqSpec::eq_spec(&#[trigger] s@[i], x));
 pub assume_specification<T: Ord> [ <[T]>::binary_search ] (s: &[T], x: &T) -> (r: core::result::Result<usize, usize>)
